@@ -776,6 +776,7 @@ package commitlog
 //@   modifies nothing
 //@   ensures result == (x < y ? x : y)
 // (the caller, readMessage, ignores the byte count: a read that returns no error must have filled the buffer)
+//@ ghost var listRead []*segment
 //@ func (*committedReader).readLoop serves C03, C01, C10
 //@   returns (n, err)
 //@   ensures [a-read-fills-the-buffer-or-fails] err == nil ==> n == len(p)
@@ -783,6 +784,14 @@ package commitlog
 //@   assumes r.pos >= 0 && (r.hwSeg != nil ==> r.hwPos <= r.hwSeg.position)
 //@   loop 1 invariant n >= 0 && r.seg != nil && r.pos >= 0 && (r.hwSeg != nil ==> r.hwPos <= r.hwSeg.position)
 //@   call findSegmentByBaseOffset requires [does-not-walk-past-the-watermark-segment] r.seg != r.hwSeg
+// (a reader that was parked while segments were rolled goes on in the log AS IT IS NOW: the segment after the one it
+//  has finished, and the watermark's position, are looked up in the segment list read last - the list read after the
+//  last wait, not the one the read began with)
+//@   ghost at entry: ghost.listRead := segments
+//@   ghost after call Segments: ghost.listRead := ret0
+//@   loop 1 invariant segments == ghost.listRead
+//@   call findSegmentByBaseOffset requires [the-next-segment-is-looked-up-in-the-list-read-last] arg0 == ghost.listRead
+//@   call getHWPos requires [the-watermark-is-looked-up-in-the-list-read-last] arg0 == ghost.listRead
 //@   call (*segment).ReadAt requires [from-reader-position] arg0 == r.seg && arg2 == r.pos
 //@   call (*segment).ReadAt requires [not-beyond-hw-position] r.seg == r.hwSeg ==> r.pos + len(arg1) <= r.hwPos
 //@   call getHWPos requires [limit-at-current-hw] arg1 == r.hw
